@@ -1,7 +1,8 @@
 from collections import defaultdict
+from dataclasses import dataclass
 from enum import Enum
 from types import FrameType
-from typing import TYPE_CHECKING
+from typing import TYPE_CHECKING, ClassVar
 
 import hugr.build.function as hf
 import hugr.std.collections.array
@@ -28,7 +29,8 @@ from guppylang_internals.definition.value import (
     CompiledCallableDef,
     CompiledHugrNodeDef,
 )
-from guppylang_internals.error import pretty_errors
+from guppylang_internals.diagnostic import Error
+from guppylang_internals.error import GuppyError, pretty_errors
 from guppylang_internals.span import SourceMap
 from guppylang_internals.tys.builtin import (
     array_type_def,
@@ -133,6 +135,16 @@ class DefinitionStore:
 DEF_STORE: DefinitionStore = DefinitionStore()
 
 
+@dataclass(frozen=True)
+class CyclicDefinitionError(Error):
+    title: ClassVar[str] = "Cyclic definition"
+    message: ClassVar[str] = (
+        "The signature of {kind} `{name}` refers to `{name}` itself"
+    )
+    kind: str
+    name: str
+
+
 class CompilationEngine:
     """Main compiler driver handling checking and compiling of definitions.
 
@@ -150,6 +162,9 @@ class CompilationEngine:
     types_to_check_worklist: dict[DefId, ParsedDef]
     to_check_worklist: dict[DefId, ParsedDef]
 
+    #: Definitions whose signature is being parsed right now (to detect cycles)
+    parsing: set[DefId]
+
     def __init__(self) -> None:
         """Resets the compilation cache."""
         self.reset()
@@ -162,6 +177,20 @@ class CompilationEngine:
         self.compiled = {}
         self.to_check_worklist = {}
         self.types_to_check_worklist = {}
+        self.parsing = set()
+
+    def _parse(self, defn: ParsableDef) -> ParsedDef:
+        """Parses a definition, failing with an error if that requires parsing the very
+        same definition again (e.g. `def f(x: f)`) instead of recursing forever."""
+        from guppylang_internals.checker.core import Globals
+
+        if defn.id in self.parsing:
+            raise GuppyError(CyclicDefinitionError(None, defn.description, defn.name))
+        self.parsing.add(defn.id)
+        try:
+            return defn.parse(Globals(DEF_STORE.frames[defn.id]), DEF_STORE.sources)
+        finally:
+            self.parsing.discard(defn.id)
 
     @pretty_errors
     def register_extension(self, extension: Extension) -> None:
@@ -181,7 +210,7 @@ class CompilationEngine:
             return self.parsed[id]
         defn = DEF_STORE.raw_defs[id]
         if isinstance(defn, ParsableDef):
-            defn = defn.parse(Globals(DEF_STORE.frames[defn.id]), DEF_STORE.sources)
+            defn = self._parse(defn)
         self.parsed[id] = defn
         if isinstance(defn, TypeDef):
             self.types_to_check_worklist[id] = defn
@@ -229,11 +258,7 @@ class CompilationEngine:
 
         defn = DEF_STORE.raw_defs[id]
         self.to_check_worklist = {
-            defn.id: (
-                defn.parse(Globals(DEF_STORE.frames[defn.id]), DEF_STORE.sources)
-                if isinstance(defn, ParsableDef)
-                else defn
-            )
+            defn.id: (self._parse(defn) if isinstance(defn, ParsableDef) else defn)
         }
         while self.types_to_check_worklist or self.to_check_worklist:
             # Types need to be checked first. This is because parsing e.g. a function
